@@ -639,6 +639,8 @@ def run(F, rep, tier):
     rule_r3_merge(F, rep)
     from . import objflags
     objflags.rule(F, rep, "C07.R2b")
+    from . import visibility
+    visibility.rule(F, rep, "C07.R4")
     rep.assume("layer-index arithmetic (layer_i + depth + 1, super_layers.len() + 1), value-level associativity and "
                "self/super/$ resolution at nesting are not decided")
     rep.trust("Jsonnet specification: field visibility of inherited fields (the right-most explicit visibility wins; default inherits)")
